@@ -18,7 +18,7 @@ MODELLED = ["PairingToZ1d.__init__ dispatch, PairingToZd glue, PepisKalmar recur
 ASSUMPTIONS = ["Python int is unbounded (Z); math.isqrt is the integer square root (Z.sqrt)"]
 THEOREM_NOTES = {
     "C14_rs_nd": "not yet a theorem: d-dimensional Rosenberg-Strong is tied by correspondence + oracle only",
-    "C14_pepis_kalmar": "not yet a theorem: model pk_projection2d tied by correspondence + oracle only",
+    "C14_pepis_kalmar_*": "pk_pairing2d is generated from the source; pk_projection2d (recursive _aux_k/_aux_j) is the hand model of Model/Pairing.v, tied by correspondence",
 }
 
 
